@@ -189,7 +189,9 @@ ssize_t sendto(int fd, const void *buf, size_t len, int flags, const struct sock
     auto &q = S.aq[fd];
     if(q.empty()) anomaly(5, fd, static_cast<long long>(len));
     else {
-      auto f = q.front(); q.pop_front();
+      auto f = q.front();
+      // a short count (impossible for a datagram) is a logic_error inside the driver: the element stays queued
+      if(arg(e, 0) < 0 || arg(e, 0) == static_cast<long long>(len)) q.pop_front();
       if(len != f.size || f.dst != port - PORT_BASE_SYM || !check((3ull << 20) + static_cast<uint64_t>(f.fut), 0, static_cast<char const *>(buf), len))
         anomaly(3, fd, f.fut);
     }
